@@ -924,9 +924,6 @@ Qed.
 Definition issue_fee (e : Event) : Z := match e with EvIssue _ _ _ f => f | _ => 0 end.
 (* the sum of the fees of the EvIssue events of a list *)
 Definition issue_fees (d : list Event) : Z := fold_right (fun e a => issue_fee e + a) 0 d.
-Definition is_debit (e : Event) : bool := match e with EvDebit _ _ _ => true | _ => false end.
-Definition is_any_issue (e : Event) : bool := match e with EvIssue _ _ _ _ => true | _ => false end.
-Definition plain (e : Event) : Prop := is_debit e = false /\ is_any_issue e = false.
 
 Lemma issue_fees_cons e d : issue_fees (e :: d) = issue_fee e + issue_fees d.
 Proof. reflexivity. Qed.
@@ -1331,3 +1328,295 @@ Proof. intros Hcfg HR. apply (trace_counts cfg), Reach_T; assumption. Qed.
 (* the loop invariant of the expiry loop holds where the loop starts *)
 Theorem reach_LI cfg s : wf_cfg cfg -> Reach cfg s -> LI cfg s.
 Proof. intros Hcfg HR. apply Inv_LI; [now apply Reach_Inv|now apply Reach_T]. Qed.
+
+(* ================================================================== *)
+(* C02_debit_matches_issue: every debit of the log is followed (newer) by the   *)
+(* issue events of one batch, whose fees sum to it, and the batch-start event   *)
+(* ================================================================== *)
+
+Lemma msg_Cm cfg s o s' : handle cfg s o = Ok s' -> ctx_op o = false -> Cm s s'.
+Proof.
+  intros H Hk. destruct o; cbn [ctx_op] in Hk; try discriminate; cbn [handle] in H.
+  - unfold h_define in H. inv_ok H. destruct (get svc (defs s)); inv_ok H. subst. cm_auto.
+  - unfold h_bind in H. inv_ok H. sproj.
+    assert (Hw2 : Cm s a2) by (eapply Cm_pay_deposit; eauto).
+    destruct (get prov (owner_of a2)); inv_ok H; subst; cm_auto.
+  - unfold h_update in H. inv_ok H.
+    assert (Hw3 : Cm s a3).
+    { destruct (coins_empty dep); inv_ok Ha3; [subst; apply Cm_refl|]. eapply Cm_pay_deposit; eauto. }
+    destruct (negb (qos =? 0) || negb (coins_empty dep) || match pr with Some _ => true | None => false end);
+      [|inv_ok H; now subst].
+    destruct a1 as [[raw p]|]; inv_ok H; subst; cm_auto.
+  - unfold h_disable in H. inv_ok H. subst. cm_auto.
+  - unfold h_enable in H. inv_ok H. subst.
+    assert (Hw3 : Cm s a2).
+    { destruct (coins_empty dep); inv_ok Ha2; [subst; apply Cm_refl|]. eapply Cm_pay_deposit; eauto. }
+    cm_auto.
+  - unfold h_refund_deposit in H. inv_ok H. subst.
+    assert (Hw3 : Cm s a0) by (eapply Cm_transfer; eauto). cm_auto.
+  - unfold h_set_withdraw in H. inv_ok H. subst. cm_auto.
+  - unfold h_withdraw in H. inv_ok H.
+    destruct (prov =? 0).
+    + inv_ok H. subst. apply Cm_transfer in Ha. eapply Cm_trans; [|apply Cm_emit; split; reflexivity].
+      eapply Cm_trans; [|exact Ha]. cm_auto.
+    + inv_ok H. subst. apply Cm_transfer in Ha0. eapply Cm_trans; [|apply Cm_emit; split; reflexivity].
+      eapply Cm_trans; [|exact Ha0].
+      destruct (get0 prov (earned s) =? get0 owner (own_earned s)); [|destruct (_ <? 0)]; inv_ok Ha; subst; cm_auto.
+  - unfold h_transfer in H. inv_ok H. eapply Cm_transfer; eauto.
+Qed.
+
+Lemma ctxmsg_Cm cfg s o s' : handle cfg s o = Ok s' -> ctx_only o -> Cm s s'.
+Proof.
+  intros H Hk. destruct o; cbn [ctx_only] in Hk; try contradiction; cbn [handle] in H.
+  - unfold h_call in H. inv_ok H. apply create_context_spec in H.
+    destruct H as (capv & _ & _ & _ & ->). unfold created. cm_auto.
+  - apply create_context_spec in H.
+    destruct H as (capv & _ & _ & _ & ->). unfold created. cm_auto.
+  - apply h_pause_spec in H. destruct H as (rc0 & _ & _ & _ & _ & _ & ->). cm_auto.
+  - apply h_start_spec in H. destruct H as (rc0 & _ & _ & _ & _ & ->). unfold started.
+    destruct (negb (has c (expq_h s)) && negb (has c (newq_h s))); cm_auto.
+  - apply h_kill_spec in H. destruct H as (rc0 & _ & _ & _ & _ & ->). cm_auto.
+  - apply h_update_ctx_spec in H.
+    destruct H as (rc0 & capo & _ & _ & _ & _ & _ & _ & _ & _ & _ & ->). cm_auto.
+Qed.
+
+Lemma ND_slash cfg s r s1 : slash cfg s r = Ok s1 -> ND s s1.
+Proof.
+  intros H. apply slash_shape in H.
+  destruct H as (q & rc & b & amt & b2 & _ & _ & _ & _ & _ & _ & _ & _ & _ & _ & _ & ->). cm_auto.
+Qed.
+
+Lemma ND_refund s r cons fee s1 : refund_fee s r cons fee = Some s1 -> ND s s1.
+Proof. intros H. apply refund_shape in H. destruct H as (_ & _ & ->). cm_auto. Qed.
+
+Lemma ND_respond cfg s r who code out ov ok s' :
+  h_respond cfg s r who code out ov ok = Ok s' -> ND s s'.
+Proof.
+  intros H. apply respond_inv in H.
+  destruct H as (q & rc0 & s1 & rc & _ & _ & _ & _ & _ & Hset & _ & ->).
+  eapply ND_trans; [|apply Cm_ND, Cm_resp_finish].
+  assert (H1 : ND s s1).
+  { destruct Hset as [[_ (sa & Es & Er)]|[_ Ea]].
+    - eapply ND_trans; [eapply ND_slash; eauto|eapply ND_refund; eauto].
+    - apply add_earned_shape in Ea. destruct Ea as (o & s0 & Et & _ & _ & ->). cbv zeta.
+      pose proof (transfer_frame _ _ _ _ _ Et) as Hf. cm_auto. }
+  unfold ND. rewrite log_resp_mid. apply ext_cons; [reflexivity|exact H1].
+Qed.
+
+Lemma ND_msg cfg s o s' : (forall dt, o <> OEndBlock dt) -> handle cfg s o = Ok s' -> ND s s'.
+Proof.
+  intros Hne H.
+  destruct o;
+    try (apply Cm_ND; eapply msg_Cm; [exact H|reflexivity]);
+    try (apply Cm_ND; eapply ctxmsg_Cm; [exact H|exact I]).
+  - cbn [handle] in H. eapply ND_respond; eauto.
+  - exfalso. eapply Hne. reflexivity.
+Qed.
+
+Lemma ND_expire_req cfg s r : ND s (expire_req cfg s r).
+Proof.
+  unfold expire_req.
+  destruct (get r (reqs s)) as [q|]; [|apply ND_refl].
+  destruct (get (rid_ctx r) (ctxs s)) as [rc|]; [|apply ND_refl].
+  eapply ND_trans; [|unfold ND; sproj; apply ext_cons; [reflexivity|apply ext_refl]].
+  eapply ND_trans; [|apply ND_same, log_deactivate].
+  destruct (c_super rc); [apply ND_refl|].
+  assert (Hsa : ND s (match slash cfg s r with Ok x => x | _ => s end)).
+  { destruct (slash cfg s r) eqn:Es; try apply ND_refl. eapply ND_slash; eauto. }
+  destruct (refund_fee _ r (c_cons rc) (r_fee q)) eqn:Er; [|assumption].
+  eapply ND_trans; [exact Hsa|]. eapply ND_refund; eauto.
+Qed.
+
+Lemma ND_expire_one cfg s c : ND s (expire_one cfg s c).
+Proof.
+  unfold expire_one. set (rc := ctx_or_zero s c).
+  assert (Hp : ND s (fst (if c_bdone rc then (s, rc)
+             else complete_batch (fold_left (expire_req cfg) (active_rids s c (c_counter rc)) s) c rc))).
+  { destruct (c_bdone rc); cbn [fst]; [apply ND_refl|].
+    eapply ND_trans; [|apply Cm_ND, Cm_complete_batch].
+    generalize (active_rids s c (c_counter rc)). intros l. generalize s. clear.
+    induction l as [|a l IH]; intros s; cbn [fold_left]; [apply ND_refl|].
+    eapply ND_trans; [apply ND_expire_req|apply IH]. }
+  destruct (if c_bdone rc then (s, rc) else _) as [s1 rc1]. cbn [fst] in Hp.
+  eapply ND_trans; [exact Hp|]. eapply ND_trans; [|apply Cm_ND, Cm_clean_batch].
+  destruct (c_state rc1); [destruct (c_rep rc1 && _)| |]; cm_auto.
+Qed.
+
+(* ---- the ordering invariant ---- *)
+
+Definition issue_of (c : CtxId) (n h cons : Z) (e : Event) : Prop :=
+  exists i p f, e = EvIssue (c, n, h, i) p cons f.
+
+Definition DebitOK (l : list Event) : Prop :=
+  forall l1 l2 c cons amt, l = l1 ++ EvDebit c cons amt :: l2 ->
+    exists rest n h evs, l1 = rest ++ EvBatchStart c n h (len evs) :: evs
+      /\ Forall (issue_of c n h cons) evs /\ issue_fees evs = amt.
+
+Lemma split_nodebit d l l1 l2 x :
+  Forall nodebit d -> is_debit x = true -> d ++ l = l1 ++ x :: l2 ->
+  exists l1', l1 = d ++ l1' /\ l = l1' ++ x :: l2.
+Proof.
+  intros Hd Hx. revert l1. induction Hd as [|e d He Hd IH]; intros l1 E; cbn [app] in *; [eauto|].
+  destruct l1 as [|e' l1]; cbn [app] in E.
+  - injection E as -> _. unfold nodebit in He. congruence.
+  - injection E as <- E. destruct (IH _ E) as (l1' & -> & El). eauto.
+Qed.
+
+Lemma DebitOK_ND l l' : DebitOK l -> ext nodebit l l' -> DebitOK l'.
+Proof.
+  intros H (d & -> & Hd) l1 l2 c cons amt E.
+  destruct (split_nodebit d l l1 l2 (EvDebit c cons amt) Hd eq_refl E) as (l1' & -> & El).
+  destruct (H _ _ _ _ _ El) as (rest & n & h & evs & -> & Hev & Hf).
+  exists (d ++ rest), n, h, evs. split; [now rewrite app_assoc|auto].
+Qed.
+
+Lemma DebitOK_new l c n h cons evs :
+  DebitOK l -> Forall (issue_of c n h cons) evs ->
+  DebitOK (EvBatchStart c n h (len evs) :: evs ++ EvDebit c cons (issue_fees evs) :: l).
+Proof.
+  intros H Hev l1 l2 c' cons' amt E.
+  assert (Hd : Forall nodebit (EvBatchStart c n h (len evs) :: evs)).
+  { constructor; [reflexivity|]. eapply Forall_impl; [|exact Hev].
+    intros e (i & p & f & ->). reflexivity. }
+  change (EvBatchStart c n h (len evs) :: evs ++ EvDebit c cons (issue_fees evs) :: l)
+    with ((EvBatchStart c n h (len evs) :: evs) ++ EvDebit c cons (issue_fees evs) :: l) in E.
+  destruct (split_nodebit _ _ l1 l2 (EvDebit c' cons' amt) Hd eq_refl E) as (l1' & -> & El).
+  destruct l1' as [|e l1']; cbn [app] in El.
+  - injection El as <- <- <- _. exists [], n, h, evs. rewrite app_nil_r. auto.
+  - injection El as <- El. destruct (H _ _ _ _ _ El) as (rest & n' & h' & evs' & -> & Hev' & Hf').
+    exists ((EvBatchStart c n h (len evs) :: evs) ++ EvDebit c cons (issue_fees evs) :: rest), n', h', evs'.
+    split; [|auto]. rewrite <- !app_assoc. reflexivity.
+Qed.
+
+Definition Dk (s : State) : Prop := DebitOK (log s).
+
+Lemma issue_evs_of s c rc n i provs : Forall (issue_of c n (height s) (c_cons rc)) (issue_evs s c rc n i provs).
+Proof.
+  apply Forall_forall. intros e Hin. apply In_issue_evs in Hin.
+  destruct Hin as (j & p & -> & _). exists j, p, (fee_of s rc p). reflexivity.
+Qed.
+
+Lemma issue_evs_length s c rc n i provs : length (issue_evs s c rc n i provs) = length provs.
+Proof.
+  revert i. induction provs as [|p t IH]; intros i; cbn [issue_evs length]; [reflexivity|].
+  rewrite app_length, IH. cbn. lia.
+Qed.
+
+Lemma Dk_new_one cfg s c : Inv cfg s -> In (height s, c) (newq s) -> Dk s -> Dk (new_one cfg s c).
+Proof.
+  intros HI Hdue HD. destruct (due_new_ctx _ _ _ HI Hdue) as (rc & Grc & _ & _).
+  pose proof (new_one_log cfg s c rc Grc) as H. cbv zeta in H.
+  set (el := filter_providers s rc (c_provs rc)) in *.
+  destruct H as [(Hext & _)|(_ & sp & Hsp & El & _)].
+  - eapply DebitOK_ND; [exact HD|]. eapply ext_weaken; [apply plain_nodebit|exact Hext].
+  - unfold Dk. rewrite El.
+    set (n := c_counter rc + 1) in *. set (provs := map fst el) in *.
+    assert (Hlen : len provs = len (issue_evs sp c rc n 0 provs)).
+    { unfold len. now rewrite issue_evs_length. }
+    rewrite Hlen.
+    destruct Hsp as [(Es & ->)|(Es & x & Et & Esp)].
+    + eapply DebitOK_ND; [exact HD|]. apply ext_cons; [reflexivity|].
+      exists (issue_evs s c rc n 0 provs). split; [reflexivity|].
+      eapply Forall_impl; [|apply issue_evs_of]. intros e (i & p & f & ->). reflexivity.
+    + pose proof (transfer_frame _ _ _ _ _ Et) as Hf.
+      assert (Els : log sp = EvDebit c (c_cons rc) (sum_prices el) :: log s)
+        by (rewrite Esp; sproj; rewrite Hf; reflexivity).
+      assert (Eh : height sp = height s) by (rewrite Esp; sproj; rewrite Hf; reflexivity).
+      assert (Et1 : time sp = time s) by (rewrite Esp; sproj; rewrite Hf; reflexivity).
+      assert (Ep : pricing sp = pricing s) by (rewrite Esp; sproj; rewrite Hf; reflexivity).
+      assert (Ev : vols sp = vols s) by (rewrite Esp; sproj; rewrite Hf; reflexivity).
+      assert (Hfees : sum_prices el = issue_fees (issue_evs sp c rc n 0 provs)).
+      { unfold provs. rewrite issue_evs_fees.
+        assert (E : forall l, fold_right (fun p a => fee_of sp rc p + a) 0 l
+                         = fold_right (fun p a => fee_of s rc p + a) 0 l).
+        { induction l as [|p t IH]; cbn [fold_right]; [reflexivity|].
+          rewrite IH, (fee_of_stable s sp) by assumption. reflexivity. }
+        rewrite E. unfold el. now rewrite fee_sum_prices, Es. }
+      rewrite Els, Hfees, <- Eh. apply DebitOK_new; [exact HD|apply issue_evs_of].
+Qed.
+
+(* generic: a property kept by every message, by both per-context EndBlock handlers (from
+   states satisfying Inv) and by the tick holds in every reachable state *)
+Lemma fold_expire_phase_P (P : State -> Prop) cfg l s :
+  wf_cfg cfg ->
+  (forall s c, Inv cfg s -> In (height s, c) (expq s) -> height s < HEIGHT_BOUND -> P s -> P (expire_one cfg s c)) ->
+  Inv cfg s -> P s -> height s < HEIGHT_BOUND -> NoDup l ->
+  (forall c, In c l -> In (height s, c) (expq s)) ->
+  P (fold_left (expire_one cfg) l s).
+Proof.
+  intros Hcfg HP. revert s. induction l as [|a l IH]; intros s Hi Hp Hb Hn Hl; cbn [fold_left]; [assumption|].
+  inversion Hn as [|? ? Hna Hn']; subst.
+  assert (Hda : In (height s, a) (expq s)) by (apply Hl; now left).
+  pose proof (Inv_expire_one cfg s a Hcfg Hi Hda Hb) as Hi1.
+  pose proof (height_expire_one cfg s a Hcfg Hi Hda Hb) as Eh.
+  pose proof (expq_after_expire_one cfg s a Hcfg Hi Hda Hb) as Eq.
+  apply IH; try assumption.
+  - now apply HP.
+  - now rewrite Eh.
+  - intros c Hc. rewrite Eh. apply Eq. split; [apply Hl; now right|]. intros ->. contradiction.
+Qed.
+
+Lemma fold_new_phase_P (P : State -> Prop) cfg l s :
+  wf_cfg cfg ->
+  (forall s c, Inv cfg s -> In (height s, c) (newq s) -> height s < HEIGHT_BOUND -> P s -> P (new_one cfg s c)) ->
+  Inv cfg s -> P s -> height s < HEIGHT_BOUND -> NoDup l ->
+  (forall c, In c l -> In (height s, c) (newq s)) ->
+  P (fold_left (new_one cfg) l s).
+Proof.
+  intros Hcfg HP. revert s. induction l as [|a l IH]; intros s Hi Hp Hb Hn Hl; cbn [fold_left]; [assumption|].
+  inversion Hn as [|? ? Hna Hn']; subst.
+  assert (Hda : In (height s, a) (newq s)) by (apply Hl; now left).
+  pose proof (Inv_new_one cfg s a Hcfg Hi Hda Hb) as Hi1.
+  pose proof (height_new_one cfg s a Hcfg Hi Hda Hb) as Eh.
+  pose proof (newq_after_new_one cfg s a Hcfg Hi Hda Hb) as Eq.
+  apply IH; try assumption.
+  - now apply HP.
+  - now rewrite Eh.
+  - intros c Hc. rewrite Eh. apply Eq. split; [apply Hl; now right|]. intros ->. contradiction.
+Qed.
+
+Theorem Reach_Dk cfg s : wf_cfg cfg -> Reach cfg s -> Dk s.
+Proof.
+  intros Hcfg H. induction H as [h0 t0 f H1 H2 H3|s o H IH Ho].
+  - intros l1 l2 c cons amt E. unfold init in E. cbn [log] in E. destruct l1; discriminate.
+  - pose proof (Reach_Inv cfg s Hcfg H) as Hi.
+    unfold step. destruct (handle cfg s o) as [s'| |] eqn:E; cbn [fst]; try assumption.
+    destruct o; try (eapply DebitOK_ND; [exact IH|]; eapply (ND_msg cfg s _ s'); [|exact E]; discriminate).
+    cbn [handle] in E. injection E as <-. cbn [wf_op] in Ho. destruct Ho as (_ & Hb).
+    unfold end_block, end_blocker.
+    set (l1 := due (expq s) (height s)).
+    assert (Hn1 : NoDup l1) by (apply NoDup_due; apply (inv_wf _ _ Hi)).
+    assert (Hl1 : forall c, In c l1 -> In (height s, c) (expq s)) by (intros c; apply In_due).
+    destruct (fold_expire_phase cfg l1 s Hcfg Hi Hb Hn1 Hl1) as (I1 & H1 & _).
+    assert (D1 : Dk (fold_left (expire_one cfg) l1 s)).
+    { apply (fold_expire_phase_P Dk); try assumption.
+      intros s0 c _ _ _ HD. eapply DebitOK_ND; [exact HD|apply ND_expire_one]. }
+    set (s1 := fold_left (expire_one cfg) l1 s) in *.
+    set (l2 := due (newq s1) (height s1)).
+    assert (Hn2 : NoDup l2) by (apply NoDup_due; apply (inv_wf _ _ I1)).
+    assert (Hl2 : forall c, In c l2 -> In (height s1, c) (newq s1)) by (intros c; apply In_due).
+    assert (Hb1 : height s1 < HEIGHT_BOUND) by now rewrite H1.
+    assert (D2 : Dk (fold_left (new_one cfg) l2 s1)).
+    { apply (fold_new_phase_P Dk); try assumption.
+      intros s0 c Hi0 Hd0 _ HD. now apply Dk_new_one. }
+    exact D2.
+Qed.
+
+(* every debit of the log is immediately followed (newer) by the issue events of one batch
+   of its context -- all for the debited consumer, all of the block of the batch start,
+   their fees summing to the debit -- and then by that batch's EvBatchStart *)
+Theorem debit_matches_issue cfg s l1 l2 c cons amt : wf_cfg cfg -> Reach cfg s ->
+  log s = l1 ++ EvDebit c cons amt :: l2 ->
+  exists rest n h evs, l1 = rest ++ EvBatchStart c n h (len evs) :: evs
+    /\ Forall (issue_of c n h cons) evs /\ issue_fees evs = amt.
+Proof. intros Hcfg HR E. exact (Reach_Dk cfg s Hcfg HR l1 l2 c cons amt E). Qed.
+
+Example tx_debit_matches :
+  exists l1 l2, log tx_s = l1 ++ EvDebit tx_c 20 200 :: l2
+    /\ exists rest, l1 = rest ++ EvBatchStart tx_c 2 11 (len [EvIssue tx_r4 12 20 100; EvIssue tx_r3 11 20 100])
+                                  :: [EvIssue tx_r4 12 20 100; EvIssue tx_r3 11 20 100]
+    /\ issue_fees [EvIssue tx_r4 12 20 100; EvIssue tx_r3 11 20 100] = 200.
+Proof.
+  exists (firstn 11 (log tx_s)), (skipn 12 (log tx_s)). split; [vm_compute; reflexivity|].
+  exists (firstn 8 (log tx_s)). split; vm_compute; reflexivity.
+Qed.
